@@ -17,10 +17,12 @@ import H3.Gen.Headers
       the parsed value.  The laws the theorems need are listed in `HttpLaws`.
     * `HeaderMap` is an insertion-ordered list of groups (name, values in arrival order).
 
-    Three decisions of the code are read from the source on every run (`H3.Gen.Headers`):
-    `nameRejectsDquote`, `mapFallible`, `trailersRefusePseudo`.  They are `true` on a tree with
-    the three `fix:` commits of C12 and `false` on the tree before them; the model follows the
-    tree it is built against, the theorems need them `true`. -/
+    Four decisions of the code are read from the source on every run (`H3.Gen.Headers`):
+    `nameRejectsDquote`, `mapFallible`, `trailersRefusePseudo` — `true` on a tree with the three
+    `fix:` commits of C12 and `false` on the tree before them — and `mapPresizeRefuses` — `false`
+    on a tree with the D-01 fix (a map that cannot be pre-sized starts empty), `true` before it.
+    The model follows the tree it is built against; the theorems need the first three `true` and
+    the last one `false`. -/
 namespace H3.Headers
 open H3.Gen
 
@@ -157,6 +159,22 @@ def hmLen (m : HeaderMap) : Nat := (hmIter m).length
     of two, exceeds `MAX_SIZE = 2^15` (⇔ `n + n/3 > 2^15`, i.e. `n ≥ 24577`). -/
 def capacityOverflow (n : Nat) : Bool := decide (n + n / 3 > 32768)
 
+/-- The largest number of entries — distinct names — an `http::HeaderMap` holds: its index table has
+    at most `MAX_SIZE = 2^15` slots, of which `usable_capacity(c) = c - c/4` may be used. -/
+def hmMaxEntries : Nat := 24576
+
+/-- `HeaderMap::try_append` (http 1.x `try_append2`): `try_reserve_one()?` runs *first*, before the
+    name is looked up.  With `entries.len() == capacity()` it grows the index table to twice its
+    size (the table sizes are powers of two whatever the initial capacity was), and `try_grow`
+    refuses a table of more than `MAX_SIZE` slots.  So the call fails — `MaxSizeReached` — exactly
+    when the map already holds `hmMaxEntries` distinct names, *whatever* the name being appended
+    (also a name that is in the map); otherwise it appends: a new name becomes a new entry, a
+    further value of a known name goes to the extra values, of which there may be any number.
+    (Not modelled: the hash-flooding defence — after a probe sequence of ≥ 512 slots the map turns
+    "yellow" and may want to grow at a load of 1/5 already.) -/
+def hmTryAppend (m : HeaderMap) (n v : Bytes) : Option HeaderMap :=
+  if m.length < hmMaxEntries then some (hmAppend m n v) else none
+
 /-! ### errors and results -/
 
 inductive HeaderError where
@@ -242,21 +260,32 @@ def Header.add (h : Header) : Field → Header
   | .protocol p => { h with pseudo := { h.pseudo with protocol := some p, len := h.pseudo.len + 1 } }
   | .header n v => { h with fields := hmAppend h.fields n v }
 
+/-- `fields.try_append(n, v)` would fail for this field: the map is full (only regular fields go
+    to the map) -/
+def Header.full (h : Header) : Field → Bool
+  | .header _ _ => decide (hmMaxEntries ≤ h.fields.length)
+  | _ => false
+
+/-- what a full map means: `try_append(..).map_err(InvalidRequest)?`, or the panic of `append` -/
+def mapFull : Res Header := if Headers.mapFallible then .err .invalidRequest else .panic
+
 def tryFromLoop (H : Http) : Header → List FieldLine → Res Header
   | h, [] => .ok h
   | h, (n, v) :: r =>
     match Field.parse H n v with
-    | .ok f => tryFromLoop H (h.add f) r
+    | .ok f => if h.full f then mapFull else tryFromLoop H (h.add f) r
     | .err e => .err e
     | .panic => .panic
 
-/-- `Header::try_from(Vec<HeaderField>)`.  The map is created for `headers.len()` entries first:
-    with the fallible constructor an overflow is `InvalidRequest(MaxSizeReached)`, with the
-    panicking one it is a panic.  (`try_append` cannot fail afterwards: the map was sized for
-    every field; hash-flooding growth is not modelled.) -/
+/-- `Header::try_from(Vec<HeaderField>)`.  The map is created for `headers.len()` entries first.
+    Before the D-01 fix a failure of that (`mapPresizeRefuses`) ended the conversion: with the
+    fallible constructor as `InvalidRequest(MaxSizeReached)`, with the panicking one as a panic.
+    With the fix the map then simply starts empty (`unwrap_or_default`); the number of fields is
+    only an upper bound for the number of entries.  The initial capacity has no other effect: the
+    index table grows by doubling, `try_append` fails exactly at `hmMaxEntries` entries
+    (`hmTryAppend`). -/
 def tryFrom (H : Http) (fs : List FieldLine) : Res Header :=
-  if capacityOverflow fs.length then
-    (if Headers.mapFallible then .err .invalidRequest else .panic)
+  if capacityOverflow fs.length && Headers.mapPresizeRefuses then mapFull
   else tryFromLoop H {} fs
 
 /-! ### receive side: `into_request_parts`, `into_response_parts`, trailers -/
